@@ -23,7 +23,7 @@ Blocks == <<"; a comment with ( and \"\n", "\n", "(def a1 1)\n", "(def a2\n  (+ 
             \* the name of the undefined symbol occurs (as data) in an earlier form
             "(def a5 '(undefined-sym\n  q))\n">>
 \* every text starts with the definition of a two-parameter function (for the arity fault)
-Prelude == "(def ff2 (fn [p q]\n  (list p q)))\n"
+Prelude == "(def ff2 (fn [p q]\n  (list p q)))\n(defmacro mm2 (fn [p q]\n  p))\n"
 Faults == <<[n |-> "undefined", t |-> "undefined-sym"], [n |-> "throw", t |-> "(throw \"boom\")"],
             [n |-> "builtin", t |-> "(nth [1] 5)"], [n |-> "assert", t |-> "(assert false \"failed\")"],
             [n |-> "thread-builtin", t |-> "(-> [1] (nth 5))"], [n |-> "thread-last-throw", t |-> "(->> \"boom\" (throw))"],
@@ -31,7 +31,10 @@ Faults == <<[n |-> "undefined", t |-> "undefined-sym"], [n |-> "throw", t |-> "(
             [n |-> "and-last-builtin", t |-> "(and 1 2 (nth [1] 5))"], [n |-> "or-last-throw", t |-> "(or false nil (throw \"boom\"))"],
             [n |-> "thread-inner-builtin", t |-> "(-> [1] (nth 7) (or 0))"],
             \* a function defined in ANOTHER top-level form called with too few arguments: the faulty expression is the call
-            [n |-> "arity", t |-> "(ff2 1)"]>>
+            [n |-> "arity", t |-> "(ff2 1)"],
+            \* ... reached through a builtin, and a macro called with too few operands: the faulty expression is that call
+            [n |-> "arity-map", t |-> "(map ff2 [1])"], [n |-> "arity-apply", t |-> "(apply ff2 [1])"],
+            [n |-> "arity-macro", t |-> "(mm2 1)"]>>
 
 \* wrappers: d = definition form (earlier top-level form) or "", b/a = text before/after the fault,
 \* where = "call" if the fault sits in the calling form, "def" if it sits in the definition form
